@@ -50,6 +50,7 @@ type txnDesc struct {
 type caseDesc struct {
 	Store        string      `json:"store"` // badger|mock
 	Typed        bool        `json:"typed,omitempty"`
+	Bin          string      `json:"bin,omitempty"` // badgerstore typed with a BinaryMarshaler/BinaryUnmarshaler type: ptr (*binPtr), map (binMap, value receivers), val (binVal{}: methods on the pointer only, so the store falls back to JSON)
 	Prefix       string      `json:"prefix,omitempty"`
 	BeforeChange bool        `json:"before_change,omitempty"`
 	Listeners    int         `json:"listeners,omitempty"` // number of BeforeChange listeners (0 with BeforeChange = 1)
@@ -122,6 +123,141 @@ type otherStruct struct {
 	N int `json:"n"`
 }
 
+// ---- store types with their own binary encoding (not JSON: a tag byte + the reversed JSON) ----
+
+var errBinEncode = errors.New("binary: value cannot be encoded")
+
+func binEnc(tag byte, v interface{}) ([]byte, error) {
+	j, err := json.Marshal(v)
+	if err != nil {
+		return nil, err
+	}
+	out := make([]byte, 0, len(j)+1)
+	out = append(out, tag)
+	for i := len(j) - 1; i >= 0; i-- {
+		out = append(out, j[i])
+	}
+	return out, nil
+}
+
+func binDec(tag byte, d []byte, into interface{}) error {
+	if len(d) == 0 || d[0] != tag {
+		return errors.New("binary: not a value of this store")
+	}
+	j := make([]byte, 0, len(d)-1)
+	for i := len(d) - 1; i >= 1; i-- {
+		j = append(j, d[i])
+	}
+	return json.Unmarshal(j, into)
+}
+
+// binPtr: the POINTER implements encoding.BinaryMarshaler and BinaryUnmarshaler (SetType(&binPtr{})).
+type binPtr struct {
+	N   int  `json:"n"`
+	V   bool `json:"v,omitempty"`
+	Bad int  `json:"bad,omitempty"` // > 0: MarshalBinary fails
+}
+type binPtrWire struct {
+	N int  `json:"n"`
+	V bool `json:"v,omitempty"`
+}
+
+func (b *binPtr) MarshalBinary() ([]byte, error) {
+	if b.Bad > 0 {
+		return nil, errBinEncode
+	}
+	return binEnc('B', binPtrWire{b.N, b.V})
+}
+func (b *binPtr) UnmarshalBinary(d []byte) error {
+	var w binPtrWire
+	if err := binDec('B', d, &w); err != nil {
+		return err
+	}
+	b.N, b.V, b.Bad = w.N, w.V, 0
+	return nil
+}
+
+// binMap: a map type with VALUE receivers (SetType(binMap{})).
+type binMap map[string]interface{}
+
+func (m binMap) MarshalBinary() ([]byte, error) {
+	if _, bad := m["bad"]; bad {
+		return nil, errBinEncode
+	}
+	return binEnc('M', map[string]interface{}(m))
+}
+func (m binMap) UnmarshalBinary(d []byte) error {
+	var w map[string]interface{}
+	if err := binDec('M', d, &w); err != nil {
+		return err
+	}
+	for k, v := range w {
+		m[k] = v
+	}
+	return nil
+}
+
+// binVal: only *binVal has the methods, SetType(binVal{}) therefore stores JSON.
+type binVal struct {
+	N int     `json:"n"`
+	V bool    `json:"v,omitempty"`
+	F float64 `json:"f,omitempty"`
+}
+
+func (b *binVal) MarshalBinary() ([]byte, error) { return binEnc('V', *b) }
+func (b *binVal) UnmarshalBinary(d []byte) error { return binDec('V', d, b) }
+
+// typed says whether values are Go structs (as opposed to untyped maps).
+func (cd caseDesc) typed() bool { return cd.Typed || cd.Bin != "" }
+
+func mkBinValue(cd caseDesc, o opDesc) interface{} {
+	bad := 0
+	if o.unencodable() {
+		bad = o.Unenc
+	}
+	switch o.Wrong {
+	case 0:
+		switch cd.Bin {
+		case "ptr":
+			return &binPtr{N: o.N, V: o.Mark, Bad: bad}
+		case "map":
+			m := binMap{"n": float64(o.N)}
+			if o.N%3 == 1 {
+				m["t"] = "s" + strconv.Itoa(o.N)
+			}
+			if o.Mark {
+				m["v"] = true
+			}
+			if bad > 0 {
+				m["bad"] = float64(bad)
+			}
+			return m
+		default:
+			v := binVal{N: o.N, V: o.Mark}
+			if bad > 0 {
+				v.F = math.NaN() // JSON is what encodes this type
+			}
+			return v
+		}
+	case 1:
+		return item{N: o.N}
+	case 2:
+		return "x" + strconv.Itoa(o.N)
+	case 3: // the same underlying data in the other pointer-ness / plain map
+		switch cd.Bin {
+		case "ptr":
+			return binPtr{N: o.N}
+		case "map":
+			return map[string]interface{}{"n": float64(o.N)}
+		default:
+			return &binVal{N: o.N}
+		}
+	case 9:
+		return nil
+	}
+	return otherStruct{N: o.N}
+}
+
 // nl is the number of BeforeChange listeners of a store configuration.
 func (cd caseDesc) nl() int {
 	if cd.Store != "badger" || !cd.BeforeChange {
@@ -161,7 +297,11 @@ func (o opDesc) vetoAt(nl int) int {
 // Values of an untyped store only use types that survive the JSON round trip
 // unchanged (float64, string, bool, nested maps and slices), so that a value written
 // again is deep-equal to the stored one.
-func mkValue(typed bool, o opDesc) interface{} {
+func mkValue(cd caseDesc, o opDesc) interface{} {
+	if cd.Bin != "" {
+		return mkBinValue(cd, o)
+	}
+	typed := cd.Typed
 	switch o.Wrong {
 	case 0:
 		if typed {
@@ -273,6 +413,8 @@ func describe(v interface{}) string {
 		return sb.String() + "]"
 	case failJSON:
 		return "failJSON"
+	case binVal:
+		return fmt.Sprintf("binVal{n:%d v:%v f:%v}", x.N, x.V, x.F)
 	case func():
 		return "func"
 	case chan int:
@@ -290,6 +432,13 @@ func marker(v interface{}) bool {
 	case map[string]interface{}:
 		b, _ := x["v"].(bool)
 		return b
+	case *binPtr:
+		return x != nil && x.V
+	case binMap:
+		b, _ := x["v"].(bool)
+		return b
+	case binVal:
+		return x.V
 	}
 	return false
 }
@@ -426,12 +575,23 @@ func newRig(cd caseDesc, db *badger.DB) *rig {
 	switch cd.Store {
 	case "badger":
 		st := badgerstore.NewStore(db)
-		if cd.Typed {
+		switch {
+		case cd.Bin == "ptr":
+			st.SetType(&binPtr{})
+		case cd.Bin == "map":
+			st.SetType(binMap{})
+		case cd.Bin == "val":
+			st.SetType(binVal{})
+		case cd.Typed:
 			st.SetType(item{})
 		}
 		// SetPrefix replaces an earlier prefix (also by the empty one); Type() is the zero value of the store's type
 		st.SetPrefix("zz").SetPrefix(cd.Prefix)
-		if ty := st.Type(); (cd.Typed && ty != interface{}(item{})) || (!cd.Typed && fmt.Sprintf("%T|%v", ty, ty) != "map[string]interface {}|map[]") {
+		if ty := st.Type(); cd.Bin != "" {
+			if want := map[string]string{"ptr": "*main.binPtr", "map": "main.binMap", "val": "main.binVal"}[cd.Bin]; fmt.Sprintf("%T", ty) != want {
+				r.note(fmt.Sprintf("Type() returned %T", ty))
+			}
+		} else if (cd.Typed && ty != interface{}(item{})) || (!cd.Typed && fmt.Sprintf("%T|%v", ty, ty) != "map[string]interface {}|map[]") {
 			r.note(fmt.Sprintf("Type() returned %T %v", ty, ty))
 		}
 		for k := 1; k <= cd.nl(); k++ {
@@ -514,6 +674,8 @@ func classify(err error) (string, string) {
 	switch {
 	case err == nil:
 		return "ROk", "ok"
+	case errors.Is(err, errPanicked):
+		return "RPanic", "panic"
 	case errors.Is(err, store.ErrNotFound):
 		return "ENotFound", "notfound"
 	case errors.Is(err, store.ErrDuplicate):
@@ -524,7 +686,7 @@ func classify(err error) (string, string) {
 		return "EMissingID", "missingid"
 	case strings.Contains(err.Error(), "value is of type"):
 		return "EType", "type"
-	case strings.HasPrefix(err.Error(), "json: unsupported") || strings.HasPrefix(err.Error(), "json: error calling Marshal"):
+	case strings.HasPrefix(err.Error(), "json: unsupported") || strings.HasPrefix(err.Error(), "json: error calling Marshal") || errors.Is(err, errBinEncode):
 		return "EEncode", "encode"
 	}
 	return "EOther", "other:" + err.Error()
@@ -581,9 +743,9 @@ func (r *rig) call(txn interface{}, id string, o opDesc) (ob obs) {
 		var err error
 		switch o.K {
 		case "create":
-			err = wt.Create(mkValue(r.cd.Typed, o))
+			err = wt.Create(mkValue(r.cd, o))
 		case "update":
-			err = wt.Update(mkValue(r.cd.Typed, o))
+			err = wt.Update(mkValue(r.cd, o))
 		case "delete":
 			err = wt.Delete()
 		}
@@ -640,7 +802,17 @@ func (r *rig) finalContent() []string {
 	var out []string
 	for _, id := range universe {
 		txn := r.st.Read(id)
-		v, err := txn.Value()
+		var v interface{}
+		var err error
+		func() {
+			defer func() {
+				if p := recover(); p != nil {
+					r.note(fmt.Sprintf("Value of %q panicked when reading the final content: %v", id, p))
+					v, err = "!panic", nil
+				}
+			}()
+			v, err = txn.Value()
+		}()
 		txn.Close()
 		if err != nil {
 			out = append(out, "("+B(id)+",None)")
@@ -666,9 +838,9 @@ func opTerm(cd caseDesc, ob obs) string {
 	var op string
 	switch o.K {
 	case "create":
-		op = fmt.Sprintf("(OCreate %s %s %s)", B(ob.id), B(canon(mkValue(cd.Typed, o))), env)
+		op = fmt.Sprintf("(OCreate %s %s %s)", B(ob.id), B(canon(mkValue(cd, o))), env)
 	case "update":
-		op = fmt.Sprintf("(OUpdate %s %s %s)", B(ob.id), B(canon(mkValue(cd.Typed, o))), env)
+		op = fmt.Sprintf("(OUpdate %s %s %s)", B(ob.id), B(canon(mkValue(cd, o))), env)
 	case "delete":
 		op = fmt.Sprintf("(ODelete %s %s)", B(ob.id), env)
 	case "value":
@@ -815,7 +987,7 @@ func tally(cd caseDesc, dist map[string]int, runs []txnRun) (succ, ryw int) {
 			dist["callbacks"] += len(ob.cbs)
 			dist["bc_calls"] += len(ob.bcs)
 			if ob.desc.K == "update" || ob.desc.K == "create" {
-				val := canon(mkValue(cd.Typed, ob.desc))
+				val := canon(mkValue(cd, ob.desc))
 				if cur, ok := stored[ob.id]; ok && cur == val && ob.desc.K == "update" && ob.desc.Wrong == 0 {
 					dist["update_to_stored_value"]++
 					if ob.desc.vetoAt(cd.nl()) > 0 {
@@ -851,6 +1023,29 @@ func runSequential(cd caseDesc, sc *scratch) result {
 	_ = me
 	final := r.finalContent()
 	res := result{dist: map[string]int{}}
+	if cd.Store == "badger" {
+		// the stored representation is the one of the store's type: the binary encoding for types
+		// whose (pointer / map) value implements BinaryMarshaler+BinaryUnmarshaler, JSON otherwise
+		want := map[string]byte{"ptr": 'B', "map": 'M'}[cd.Bin]
+		if want == 0 {
+			want = '{'
+		}
+		sc.db.View(func(txn *badger.Txn) error {
+			it := txn.NewIterator(badger.DefaultIteratorOptions)
+			defer it.Close()
+			for it.Rewind(); it.Valid(); it.Next() {
+				b, _ := it.Item().ValueCopy(nil)
+				if len(b) == 0 || b[0] != want {
+					r.note(fmt.Sprintf("stored bytes of key %q are %q, not in the encoding of the store's type", it.Item().Key(), b))
+				}
+				res.dist["raw_entries_checked"]++
+			}
+			return nil
+		})
+		if cd.Bin != "" {
+			res.dist["cfg_bin_"+cd.Bin]++
+		}
+	}
 	succ, ryw := tally(cd, res.dist, runs)
 	res.c = Case{Term: caseTerm(cd, runs, final), Desc: cd, Nontrivial: succ >= 2 || ryw > 0}
 	for _, s := range r.impl {
@@ -1025,7 +1220,36 @@ type isoItem struct {
 var isoPadSmall = []int{0, 8, 8, 8, 16, 16, 40, 64}
 var isoPadAll = []int{0, 8, 8, 8, 16, 16, 40, 64, 300, 1500}
 
-func isoValue(typed bool, owner string, round int, pad int) interface{} {
+// isoBin: pointer type with its own binary encoding (isolation runs with Bin = "ptr")
+type isoBin struct {
+	O   string `json:"o"`
+	S   string `json:"s"`
+	P   string `json:"p"`
+	Bad bool   `json:"bad,omitempty"`
+}
+type isoBinWire struct {
+	O string `json:"o"`
+	S string `json:"s"`
+	P string `json:"p"`
+}
+
+func (b *isoBin) MarshalBinary() ([]byte, error) {
+	if b.Bad {
+		return nil, errBinEncode
+	}
+	return binEnc('B', isoBinWire{b.O, b.S, b.P})
+}
+func (b *isoBin) UnmarshalBinary(d []byte) error {
+	var w isoBinWire
+	if err := binDec('B', d, &w); err != nil {
+		return err
+	}
+	b.O, b.S, b.P, b.Bad = w.O, w.S, w.P, false
+	return nil
+}
+
+func isoValue(cd caseDesc, owner string, round int, pad int) interface{} {
+	typed := cd.Typed
 	seq := fmt.Sprintf("%06d", round)
 	mark := owner + "." + seq + "/"
 	var sb strings.Builder
@@ -1033,6 +1257,9 @@ func isoValue(typed bool, owner string, round int, pad int) interface{} {
 		sb.WriteString(mark)
 	}
 	p := sb.String()[:pad]
+	if cd.Bin != "" {
+		return &isoBin{O: owner, S: seq, P: p}
+	}
 	if typed {
 		return isoItem{O: owner, S: seq, P: p}
 	}
@@ -1152,6 +1379,11 @@ func cbTerms(cbs []cbRec) string {
 
 // readBack checks Value and Exists of an open transaction against the last committed value.
 func (ir *isoRun) readBack(sl *isoSlot, rt store.ReadTxn, where string, sample bool) {
+	defer func() {
+		if p := recover(); p != nil {
+			ir.fail(sl.id, sl.round, "read does not return the latest committed write: Value/Exists "+where+" panicked", showOpt(sl.last), fmt.Sprint("panic: ", p))
+		}
+	}()
 	v, err := rt.Value()
 	var res string
 	switch {
@@ -1183,6 +1415,18 @@ const envNone = "(Env false 0%nat [] false)"
 const envVeto1 = "(Env false 1%nat [] false)"
 const envUnenc = "(Env false 0%nat [] true)"
 
+var errPanicked = errors.New("the call panicked")
+
+// safeCall turns a panic of a store call into an error, so that the transaction can still be closed.
+func safeCall(f func() error) (err error) {
+	defer func() {
+		if p := recover(); p != nil {
+			err = fmt.Errorf("%w: %v", errPanicked, p)
+		}
+	}()
+	return f()
+}
+
 func (ir *isoRun) owner(st store.Store, g int, d isoDesc) {
 	sl := ir.slots[fmt.Sprintf("w%02d", g)]
 	sl.gid = goid()
@@ -1208,11 +1452,11 @@ func (ir *isoRun) owner(st store.Store, g int, d isoDesc) {
 			// an Update the listener vetoes, half of the time to the very value that is stored
 			v := sl.lastV
 			if r.Bool() {
-				v = isoValue(ir.cd.Typed, ownerName, round, isoPadSmall[r.Intn(len(isoPadSmall))])
+				v = isoValue(ir.cd, ownerName, round, isoPadSmall[r.Intn(len(isoPadSmall))])
 			}
 			want := canon(v)
 			sl.pending, sl.veto = &want, true
-			err := w.Update(v)
+			err := safeCall(func() error { return w.Update(v) })
 			sl.veto = false
 			res, cls := classify(err)
 			if res != "EVeto" {
@@ -1231,18 +1475,22 @@ func (ir *isoRun) owner(st store.Store, g int, d isoDesc) {
 		} else if unencRound := r.Chance(4); unencRound && ir.cd.Store == "badger" && sl.last != nil {
 			// an Update with a value of the right type that the encoder rejects
 			var v interface{}
-			if ir.cd.Typed {
-				it := isoValue(true, ownerName, round, 8).(isoItem)
+			if ir.cd.Bin != "" {
+				b := isoValue(ir.cd, ownerName, round, 8).(*isoBin)
+				b.Bad = true
+				v = b
+			} else if ir.cd.Typed {
+				it := isoValue(ir.cd, ownerName, round, 8).(isoItem)
 				it.F = math.NaN()
 				v = it
 			} else {
-				m := isoValue(false, ownerName, round, 8).(map[string]interface{})
+				m := isoValue(ir.cd, ownerName, round, 8).(map[string]interface{})
 				m["f"] = math.Inf(1)
 				v = m
 			}
 			want := canon(v)
 			sl.pending = &want
-			err := w.Update(v)
+			err := safeCall(func() error { return w.Update(v) })
 			res, cls := classify(err)
 			if res != "EEncode" {
 				ir.fail(sl.id, round, "Update with a value that cannot be encoded did not fail with the encoder's error", "encode", cls)
@@ -1263,13 +1511,13 @@ func (ir *isoRun) owner(st store.Store, g int, d isoDesc) {
 			var term string
 			sl.pending = nil
 			if r.Bool() {
-				err = w.Delete()
+				err = safeCall(w.Delete)
 				term = fmt.Sprintf("(ODelete %s %s)", B(sl.id), envNone)
 			} else {
-				v := isoValue(ir.cd.Typed, ownerName, round, 8)
+				v := isoValue(ir.cd, ownerName, round, 8)
 				want := canon(v)
 				sl.pending = &want
-				err = w.Update(v)
+				err = safeCall(func() error { return w.Update(v) })
 				term = fmt.Sprintf("(OUpdate %s %s %s)", B(sl.id), B(want), envNone)
 				if err == nil {
 					sl.last, sl.lastV = &want, v // the store says it committed the value
@@ -1289,7 +1537,7 @@ func (ir *isoRun) owner(st store.Store, g int, d isoDesc) {
 			// delete
 			sl.pending = nil
 			before := sl.last
-			err := w.Delete()
+			err := safeCall(w.Delete)
 			res, cls := classify(err)
 			if err != nil {
 				ir.fail(sl.id, round, "Delete of an existing id failed", "nil error", cls)
@@ -1309,7 +1557,7 @@ func (ir *isoRun) owner(st store.Store, g int, d isoDesc) {
 			if sample {
 				pads = isoPadSmall
 			}
-			v := isoValue(ir.cd.Typed, ownerName, round, pads[r.Intn(len(pads))])
+			v := isoValue(ir.cd, ownerName, round, pads[r.Intn(len(pads))])
 			if sl.last != nil && r.Chance(10) {
 				v = sl.lastV // write the stored value again
 			}
@@ -1319,9 +1567,9 @@ func (ir *isoRun) owner(st store.Store, g int, d isoDesc) {
 			kind := "Update"
 			if sl.last == nil {
 				kind = "Create"
-				err = w.Create(v)
+				err = safeCall(func() error { return w.Create(v) })
 			} else {
-				err = w.Update(v)
+				err = safeCall(func() error { return w.Update(v) })
 			}
 			res, cls := classify(err)
 			if err != nil {
@@ -1369,7 +1617,9 @@ func runIsolation(cd caseDesc) result {
 	mk := func() store.Store {
 		if cd.Store == "badger" {
 			st := badgerstore.NewStore(sc.db)
-			if cd.Typed {
+			if cd.Bin != "" {
+				st.SetType(&isoBin{})
+			} else if cd.Typed {
 				st.SetType(isoItem{})
 			}
 			st.SetPrefix(cd.Prefix)
@@ -1428,7 +1678,7 @@ func runIsolation(cd caseDesc) result {
 		for g := 0; g < d.Goroutines; g++ {
 			sl := ir.slots[fmt.Sprintf("w%02d", g)]
 			sl.gid, sl.round = me, d.Rounds+1
-			v := isoValue(cd.Typed, "ro", g, 8)
+			v := isoValue(cd, "ro", g, 8)
 			want := canon(v)
 			w := ro.Write(sl.id)
 			try := func(what string, f func() error) {
@@ -1444,12 +1694,12 @@ func runIsolation(cd caseDesc) result {
 			}
 			if sl.last != nil {
 				sl.pending = &want
-				try("Update", func() error { return w.Update(v) })
+				try("Update", func() error { return safeCall(func() error { return w.Update(v) }) })
 				sl.pending = nil
-				try("Delete", w.Delete)
+				try("Delete", func() error { return safeCall(w.Delete) })
 			} else {
 				sl.pending = &want
-				try("Create", func() error { return w.Create(v) })
+				try("Create", func() error { return safeCall(func() error { return w.Create(v) }) })
 			}
 			sl.pending = nil
 			ir.readBack(sl, w, "on the read-only database after failed mutations", false)
@@ -1585,6 +1835,9 @@ func genConfig(r *Rng) caseDesc {
 	if r.Chance(62) {
 		// which observers are registered: none at all, only BeforeChange, only OnChange, both, several of each
 		cd := caseDesc{Store: "badger", Typed: r.Bool(), Prefix: r.Pick([]string{"", "", "p", "x.y"}), BeforeChange: r.Chance(60), Listeners: 1 + r.Intn(3)}
+		if r.Chance(25) {
+			cd.Bin = r.Pick([]string{"ptr", "ptr", "map", "val"})
+		}
 		genObservers(r, &cd)
 		return cd
 	}
@@ -1705,6 +1958,9 @@ func genDirectedUnenc() []caseDesc {
 		{Store: "badger", Typed: true, Prefix: "", BeforeChange: true, Listeners: 3, NoOnChange: true},
 		{Store: "mock", NewID: true, OnChangeMore: 1},
 		{Store: "mock"},
+		{Store: "badger", Bin: "ptr", Prefix: "p", BeforeChange: true, Listeners: 1},
+		{Store: "badger", Bin: "map", Prefix: ""},
+		{Store: "badger", Bin: "val", Prefix: "", BeforeChange: true, Listeners: 2},
 	}
 	var out []caseDesc
 	for _, cfg := range cfgs {
@@ -1825,6 +2081,7 @@ func main() {
 			{Store: "mock", NewID: true},
 			{Store: "badger", Typed: false, Prefix: "p", NoOnChange: true}, // no listener of any kind
 			{Store: "mock", NoOnChange: true},
+			{Store: "badger", Bin: "ptr", Prefix: ""}, // binary encoding, pointer type
 		}
 		exLen := 2
 		if thorough {
@@ -1834,7 +2091,9 @@ func main() {
 				caseDesc{Store: "badger", Typed: false, Prefix: "p"},
 				caseDesc{Store: "mock"},
 				caseDesc{Store: "badger", Typed: true, Prefix: "", BeforeChange: true, Listeners: 2, NoOnChange: true}, // only BeforeChange
-				caseDesc{Store: "badger", Typed: true, Prefix: "x.y", OnChangeMore: 2})
+				caseDesc{Store: "badger", Typed: true, Prefix: "x.y", OnChangeMore: 2},
+				caseDesc{Store: "badger", Bin: "map", Prefix: "p", BeforeChange: true, Listeners: 1},
+				caseDesc{Store: "badger", Bin: "val", Prefix: ""})
 		}
 		for _, cfg := range exCfgs {
 			for _, cd := range genExhaustive(cfg, exLen) {
@@ -1844,6 +2103,14 @@ func main() {
 		for _, f := range []string{"{\"n\":", "\x00\x01", "[1,2]", "\"str\""} {
 			for _, typed := range []bool{true, false} {
 				add("foreign_entry", runForeign(caseDesc{Store: "badger", Typed: typed, Prefix: map[bool]string{true: "p", false: ""}[typed], BeforeChange: true, Listeners: 1, Foreign: f}, sc))
+			}
+		}
+		for _, f := range []string{"{\"n\":1}", "B", "M}1:\"n\"", ""} {
+			for _, bin := range []string{"ptr", "map"} {
+				if f == "" {
+					f = "\x00"
+				}
+				add("foreign_entry", runForeign(caseDesc{Store: "badger", Bin: bin, Prefix: "", BeforeChange: true, Listeners: 1, Foreign: f}, sc))
 			}
 		}
 		for _, cd := range genDirectedUnenc() {
@@ -1872,11 +2139,13 @@ func main() {
 		for i := 0; i < niso; i++ {
 			add("isolation", runIsolation(genIsolation(r, "badger", false, "iso", rounds, i%4)))
 			add("isolation", runIsolation(genIsolation(r, "badger", true, "", rounds*2/3, (i+1)%4)))
-			add("isolation", runIsolation(genIsolation(r, "badger", r.Bool(), "q", rounds/3, 2+int(o.Seed+uint64(i))%2)))
+			binIso := genIsolation(r, "badger", false, "q", rounds/3, 2+int(o.Seed+uint64(i))%2)
+			binIso.Bin = "ptr" // pointer type with its own binary encoding
+			add("isolation", runIsolation(binIso))
 			add("isolation", runIsolation(genIsolation(r, "mock", false, "", rounds/3, int(o.Seed+uint64(i))%2*1)))
 		}
 	}
 	Emit(o, "C11", "From GoRes Require Import Run.Run_C11.", "kcase",
-		"histories of Create/Update/Delete/Value/Exists through Read/Write transactions of the real badgerstore (scratch BadgerDB; typed/untyped, prefix \"\"/p/x.y) and mockstore (with/without NewID), every section with stores that have no listener at all, only BeforeChange, only OnChange, both, or several of each (0-3 of each kind; further OnChange listeners must see what the first saw, in registration order; without OnChange listener the callback expectations are vacuous and results, reads and final content are still compared): all histories of <=2 (thorough <=3) single-operation transactions over ids {a,\"\"}, random sequential histories of 1-25 operations over {a,b,c,\"\"} with 1-4 operations per transaction, a pool of 3 payloads per id (Updates to the stored value are common), 1-3 BeforeChange listeners whose vetoes come from a per-call flag, a per-id switch toggled mid-history or a marker in the value, BeforeChange calls recorded per operation, 9% of the written values of the right type but unencodable (NaN, +-Inf, func, chan, failing MarshalJSON, flat or nested; also in 336 directed histories that go on using the id afterwards), and concurrent runs of 2-6 goroutines x 5-20 transactions over 2-3 ids serialised by observed lock acquisition order, and isolation runs of 8-16 goroutines each owning one id for 400-1200 (thorough up to 4000) write/read-back rounds (incl. vetoed Updates, half of them to the stored value) with owner- and round-stamped values of 30-1500 bytes, checked on the spot, at the end and after reopening the database (first 8 rounds per id also go to the Coq oracle); non-trivial = at least two successful mutations, or a read of the transaction's own write, or a concurrent run; distinct by the whole observed history",
+		"histories of Create/Update/Delete/Value/Exists through Read/Write transactions of the real badgerstore (scratch BadgerDB; typed struct / untyped map / types with their own binary encoding: pointer type, map type with value receivers, value type that falls back to JSON, with the stored bytes checked to be in that encoding; prefix \"\"/p/x.y) and mockstore (with/without NewID), every section with stores that have no listener at all, only BeforeChange, only OnChange, both, or several of each (0-3 of each kind; further OnChange listeners must see what the first saw, in registration order; without OnChange listener the callback expectations are vacuous and results, reads and final content are still compared): all histories of <=2 (thorough <=3) single-operation transactions over ids {a,\"\"}, random sequential histories of 1-25 operations over {a,b,c,\"\"} with 1-4 operations per transaction, a pool of 3 payloads per id (Updates to the stored value are common), 1-3 BeforeChange listeners whose vetoes come from a per-call flag, a per-id switch toggled mid-history or a marker in the value, BeforeChange calls recorded per operation, 9% of the written values of the right type but unencodable (NaN, +-Inf, func, chan, failing MarshalJSON, flat or nested; also in 480 directed histories that go on using the id afterwards), and concurrent runs of 2-6 goroutines x 5-20 transactions over 2-3 ids serialised by observed lock acquisition order, and isolation runs of 8-16 goroutines each owning one id for 400-1200 (thorough up to 4000) write/read-back rounds (incl. vetoed Updates, half of them to the stored value) with owner- and round-stamped values of 30-1500 bytes, checked on the spot, at the end and after reopening the database (first 8 rounds per id also go to the Coq oracle); non-trivial = at least two successful mutations, or a read of the transaction's own write, or a concurrent run; distinct by the whole observed history",
 		cases, dist, nil, impl, 300)
 }
